@@ -124,7 +124,7 @@ _reg(Tool("accumulate", "iter", (1, 1),
                               if "fn" in F else
                               a.accumulate(S[0], **_kw(initial=_opt(V, "initial")))),
           lambda S, F, P, V: _accumulate_ref(S[0], F.get("fn"), V),
-          optional_roles=(("fn", "derive"),), profiles=(I, N, 'grumpy-add')))
+          optional_roles=(("fn", "derive"),), profiles=(I, N, 'grumpy-add', "lists", "acc")))
 _reg(Tool("batched", "iter", (1, 1),
           lambda S, F, P, V: a.batched(S[0], P["n"], strict=P["strict"]),
           lambda S, F, P, V: _batched_ref(S[0], P["n"], P["strict"]),
